@@ -344,6 +344,7 @@ func first(a, _ []byte) []byte { return a }
 //@ func (*node48).addChild
 //@   assigns SP ST B node.prefixLen node.childrenLen node4.keys pooled
 //@   ensures[allocs_nodes_only] forallref(o, implies(fresh(o), isNodeT(o) || atype(o) == 1000))
+//@   ensures[bytes_untouched] forallref(o, implies(old(allocated(o)) && o != nil && atype(o) == 1000, sameObjExcept(o)))
 //@   requires n48 != nil && atype(n48) == typeid(node48) && Inv48(n48) && refIs(ref, n48, 2)
 //@   requires n48.keys[b] == 0 && okRef(child) && child.pointer != n48
 //@   ensures[view] forallp(x, 0, 256, lookP(*ref, x) == ite(x == b, child.pointer, old(lookP48(n48, x))) && lookT(*ref, x) == ite(x == b, child.tag, old(lookT48(n48, x))))
@@ -368,6 +369,7 @@ func first(a, _ []byte) []byte { return a }
 //@ func (*node16).addChild
 //@   assigns SP ST B node.prefixLen node.childrenLen node4.keys pooled
 //@   ensures[allocs_nodes_only] forallref(o, implies(fresh(o), isNodeT(o) || atype(o) == 1000))
+//@   ensures[bytes_untouched] forallref(o, implies(old(allocated(o)) && o != nil && atype(o) == 1000, sameObjExcept(o)))
 //@   requires n16 != nil && atype(n16) == typeid(node16) && Inv16(n16) && refIs(ref, n16, 1)
 //@   requires lookP16(n16, b) == nil && okRef(child) && child.pointer != n16
 //@   ensures[view] forallp(x, 0, 256, lookP(*ref, x) == ite(x == b, child.pointer, old(lookP16(n16, x))) && lookT(*ref, x) == ite(x == b, child.tag, old(lookT16(n16, x))))
@@ -389,6 +391,7 @@ func first(a, _ []byte) []byte { return a }
 //@ func (*node4).addChild
 //@   assigns SP ST B node.prefixLen node.childrenLen node4.keys pooled
 //@   ensures[allocs_nodes_only] forallref(o, implies(fresh(o), isNodeT(o) || atype(o) == 1000))
+//@   ensures[bytes_untouched] forallref(o, implies(old(allocated(o)) && o != nil && atype(o) == 1000, sameObjExcept(o)))
 //@   requires n4 != nil && atype(n4) == typeid(node4) && Inv4(n4) && refIs(ref, n4, 0)
 //@   requires lookP4(n4, b) == nil && okRef(child) && child.pointer != n4
 //@   ensures[view] forallp(x, 0, 256, lookP(*ref, x) == ite(x == b, child.pointer, old(lookP4(n4, x))) && lookT(*ref, x) == ite(x == b, child.tag, old(lookT4(n4, x))))
@@ -405,6 +408,7 @@ func first(a, _ []byte) []byte { return a }
 //@ func (*nodeRef).addChild
 //@   assigns SP ST B node.prefixLen node.childrenLen node4.keys pooled
 //@   ensures[allocs_nodes_only] forallref(o, implies(fresh(o), isNodeT(o) || atype(o) == 1000))
+//@   ensures[bytes_untouched] forallref(o, implies(old(allocated(o)) && o != nil && atype(o) == 1000, sameObjExcept(o)))
 //@   requires typeOK(*ptr) && InvRef(*ptr) && slotOK(ptr)
 //@   requires lookP(*ptr, b) == nil && okRef(child) && child.pointer != (*ptr).pointer
 //@   ensures[view] forallp(x, 0, 256, lookP(*ptr, x) == ite(x == b, child.pointer, old(lookP(*ptr, x))) && lookT(*ptr, x) == ite(x == b, child.tag, old(lookT(*ptr, x))))
@@ -423,6 +427,7 @@ func first(a, _ []byte) []byte { return a }
 //@ func (*node256).deleteChild
 //@   assigns SP ST B node.prefixLen node.childrenLen node4.keys pooled
 //@   ensures[allocs_nodes_only] forallref(o, implies(fresh(o), isNodeT(o) || atype(o) == 1000))
+//@   ensures[bytes_untouched] forallref(o, implies(old(allocated(o)) && o != nil && atype(o) == 1000, sameObjExcept(o)))
 //@   requires n256 != nil && atype(n256) == typeid(node256) && Inv256(n256) && refIs(ref, n256, 3)
 //@   requires n256.children[b].pointer != nil
 //@   ensures[view] forallp(x, 0, 256, lookP(*ref, x) == ite(x == b, nil, old(lookP256(n256, x))) && lookT(*ref, x) == ite(x == b, 0, old(lookT256(n256, x))))
@@ -451,6 +456,7 @@ func first(a, _ []byte) []byte { return a }
 //@ func (*node48).deleteChild
 //@   assigns SP ST B node.prefixLen node.childrenLen node4.keys pooled
 //@   ensures[allocs_nodes_only] forallref(o, implies(fresh(o), isNodeT(o) || atype(o) == 1000))
+//@   ensures[bytes_untouched] forallref(o, implies(old(allocated(o)) && o != nil && atype(o) == 1000, sameObjExcept(o)))
 //@   requires n48 != nil && atype(n48) == typeid(node48) && Inv48(n48) && refIs(ref, n48, 2)
 //@   requires n48.keys[b] != 0
 //@   ensures[view] forallp(x, 0, 256, lookP(*ref, x) == ite(x == b, nil, old(lookP48(n48, x))) && lookT(*ref, x) == ite(x == b, 0, old(lookT48(n48, x))))
@@ -478,6 +484,7 @@ func first(a, _ []byte) []byte { return a }
 //@ func (*node16).deleteChild
 //@   assigns SP ST B node.prefixLen node.childrenLen node4.keys pooled
 //@   ensures[allocs_nodes_only] forallref(o, implies(fresh(o), isNodeT(o) || atype(o) == 1000))
+//@   ensures[bytes_untouched] forallref(o, implies(old(allocated(o)) && o != nil && atype(o) == 1000, sameObjExcept(o)))
 //@   requires n16 != nil && atype(n16) == typeid(node16) && Inv16(n16) && refIs(ref, n16, 1)
 //@   requires lookP16(n16, b) != nil
 //@   ensures[view] forallp(x, 0, 256, lookP(*ref, x) == ite(x == b, nil, old(lookP16(n16, x))) && lookT(*ref, x) == ite(x == b, 0, old(lookT16(n16, x))))
@@ -499,6 +506,7 @@ func first(a, _ []byte) []byte { return a }
 //@ func (*node4).deleteChild
 //@   assigns SP ST B node.prefixLen node.childrenLen node4.keys pooled
 //@   ensures[allocs_nodes_only] forallref(o, implies(fresh(o), isNodeT(o) || atype(o) == 1000))
+//@   ensures[bytes_untouched] forallref(o, implies(old(allocated(o)) && o != nil && atype(o) == 1000, sameObjExcept(o)))
 //@   requires n4 != nil && atype(n4) == typeid(node4) && Inv4(n4) && refIs(ref, n4, 0)
 //@   requires has4(n4, b) && n4.childrenLen >= 2
 //@   requires forall(i, 0, 4, implies(i < n4.childrenLen, n4.children[i].pointer != n4))
@@ -526,6 +534,7 @@ func first(a, _ []byte) []byte { return a }
 //@ func (*nodeRef).deleteChild
 //@   assigns SP ST B node.prefixLen node.childrenLen node4.keys pooled
 //@   ensures[allocs_nodes_only] forallref(o, implies(fresh(o), isNodeT(o) || atype(o) == 1000))
+//@   ensures[bytes_untouched] forallref(o, implies(old(allocated(o)) && o != nil && atype(o) == 1000, sameObjExcept(o)))
 //@   requires typeOK(*ptr) && InvRef(*ptr) && slotOK(ptr)
 //@   requires lookP(*ptr, b) != nil
 //@   requires implies((*ptr).tag == 0, as(node4, (*ptr).pointer).childrenLen >= 2 && forall(i, 0, 4, implies(i < as(node4, (*ptr).pointer).childrenLen, as(node4, (*ptr).pointer).children[i].pointer != (*ptr).pointer)))
@@ -651,7 +660,7 @@ func first(a, _ []byte) []byte { return a }
 //@   ensures[size] t.size == old(t.size) - ite(result, 1, 0)
 //@   ensures[noop_frame] implies(!result, frame())
 //@   pathkey ret
-//@   ensures[arg_bytes_unchanged] sameBytes(key, 0, blen(key.obj))
+//@   ensures[arg_bytes_unchanged] reveal(key.obj) && sameBytes(key, 0, blen(key.obj))
 //@   loop 1 (depth)
 //@     invariant 0 <= depth && depth <= len(keyS)
 //@     invariant n.pointer == (*ref).pointer && n.tag == (*ref).tag
@@ -750,7 +759,7 @@ func first(a, _ []byte) []byte { return a }
 //@   pathkey calls("Insert$1")
 //@   ensures[size_accounting] t.size == old(t.size) + calls("Insert$1")
 //@   ensures[overwrite_only_value] implies(calls("Insert$1") == 0 && calls("Get") == 0, frameExcept("alphaLeafNode.value"))
-//@   ensures[arg_bytes_unchanged] sameBytes(key, 0, blen(key.obj))
+//@   ensures[arg_bytes_unchanged] reveal(key.obj) && sameBytes(key, 0, blen(key.obj))
 //@   ensures[key_owned] forallref(o, implies(fresh(o) && atype(o) == leafT(), fresh(as(alphaLeafNode, o).key.obj)))
 //@   ensures[wf] WF1_alpha(t)
 //@   loop 1 (depth)
